@@ -49,6 +49,10 @@ type Addr struct {
 	Cell   int
 	Global *ssa.Global
 	T      types.Type // type of the pointee
+	// Alt != nil: this address is `if AltCond then <the fields above> else *Alt`
+	// (a pointer merged from interior pointers with different field paths)
+	Alt     *Addr
+	AltCond string
 }
 
 type Val struct {
